@@ -123,10 +123,11 @@ type cnode struct {
 	ctrl *controller
 	pm   *centrifuge.MemoryPresenceManager
 
-	mu   sync.Mutex
-	jl   []jlEvent
-	hist []histCall
-	evs  []cl.Event // OnUnsubscribe / OnDisconnect callbacks (own log: cl.Env.Events copies the whole log per call)
+	mu      sync.Mutex
+	jl      []jlEvent
+	hist    []histCall
+	onUnsub func(clientID, ch string) // called inside the OnUnsubscribe callback (a natural gate), set before connecting
+	evs     []cl.Event                // OnUnsubscribe / OnDisconnect callbacks (own log: cl.Env.Events copies the whole log per call)
 }
 
 func (n *cnode) logEvent(ev cl.Event) {
@@ -250,6 +251,9 @@ func newNode(name string, forward bool, mods ...cfgMod) (*cnode, error) {
 				extra += fmt.Sprintf(" disconnect=%d", ev.Disconnect.Code)
 			}
 			n.logEvent(cl.Event{Client: id, Kind: "unsubscribe", Ch: ev.Channel, Code: ev.Code, Extra: extra})
+			if f := n.onUnsub; f != nil {
+				f(id, ev.Channel)
+			}
 		})
 		c.OnDisconnect(func(ev centrifuge.DisconnectEvent) {
 			n.logEvent(cl.Event{Client: id, Kind: "disconnect", Code: ev.Code, Extra: "reason=" + ev.Reason})
